@@ -327,13 +327,13 @@ def subs(tier):
     q = tier == "quick"
     return [
         Sub("sample_N_inputs", run_sampling, strategy=sampling_case(method="N_inputs"),
-            examples=35 if q else 500),
+            examples=35 if q else 1000),
         Sub("sample_N_outputs", run_sampling, strategy=sampling_case(method="N_outputs"),
-            examples=25 if q else 300),
+            examples=25 if q else 600),
         Sub("Sampler.sample", run_sampling, strategy=sampling_case(method="sample"),
-            examples=12 if q else 150),
+            examples=12 if q else 300),
         Sub("QuickSampler.sample", run_sampling, strategy=sampling_case(method="qs_sample"),
-            examples=12 if q else 150),
+            examples=12 if q else 300),
         Sub("QuickSampler.sample_N_outputs", run_sampling, strategy=sampling_case(method="qs_N_outputs"),
-            examples=15 if q else 200),
+            examples=15 if q else 400),
     ]
